@@ -81,3 +81,36 @@ def model_differential(n, seed):
     finally:
         if os.path.exists(out):
             os.unlink(out)
+
+
+def async_episodes(pid, tier, seed):
+    """whole-runtime bounded stand-in shared by the threaded-runtime properties: bounded/c03_async_episodes.py restricted to the kinds of `pid`"""
+    n = 16 if tier == "quick" else 160
+    res = run_native("c03_async_episodes.py", ["--n", str(n), "--seed", str(seed), "--props", pid])
+    lines, ev, err = report(pid, "episodes of the real threaded runtime (simulated clock, probe nodes) against the statement", res, "c03_async_episodes.py")
+    ev = dict(ev, bound=f"{n} random 3-node graphs (rates 5-40 Hz, windows 1-3, blocking / skip / advance / PHASE mixes, jittery and overrunning delays, truncated records), 2-3 episodes each on the same graph object "
+                        "from the same initial state; the kinds checked for this property are those prefixed " + pid)
+    return lines, ev, err
+
+
+def compiled_api(pid, tier, seed):
+    """whole compiled-runtime bounded stand-in shared by C09 / C06 / C13: bounded/c09_compiled_api.py restricted to the kinds of `pid`"""
+    n = 10 if tier == "quick" else 120
+    res = run_native("c09_compiled_api.py", ["--n", str(n), "--seed", str(seed), "--props", pid], timeout=3000)
+    lines, ev, err = report(pid, "the real generate_graphs -> Graph pipeline with probe nodes against the statement", res, "c09_compiled_api.py")
+    ev = dict(ev, bound=f"{n} random 3-node systems (rates 2-25 Hz, windows 1-3, all supergraph modes, prune on/off, skip lists, a node whose name extends another's, 1-3 episodes, starting step / episode in and out of range, "
+                        "given params, jit on/off, 1-4 steps): run^n vs reset/step^n vs rollout on every field, own step result vs internal step, executed (node, seq) pairs vs the schedule, "
+                        "recording on vs off and record rows vs executed steps; the kinds checked for this property are those prefixed " + pid)
+    return lines, ev, err
+
+
+def finish_with_bounded(pid, code, lines, err):
+    """common tail of a check that has a bounded stand-in: violations of the stand-in are violations, a stand-in that could not run is a checker error"""
+    if lines:
+        for l in lines:
+            print(l)
+        return 1
+    if err and code == 0:
+        print(f"ERROR property={pid} bounded stand-in failed to run: {err[-300:]}")
+        return 3
+    return code
